@@ -116,13 +116,14 @@ Theorem c04_listener_stops_accepting : forall n b cs cs', let s := lrun (linit n
 Proof. exact listener_stops_accepting. Qed.
 Print Assumptions c04_listener_stops_accepting.
 
-(* Close returns provided the backlog channel is drained: the only state in which neither Close
-   nor a serve loop can move has a serve loop parked on a full backlog channel *)
-Theorem c04_listener_close_returns_partial : forall n b cs, let s := lrun (linit n b) cs in
+(* "... returns": while Close is pending it is never stuck — Close itself or a serve goroutine
+   has an enabled step, whatever the state of the backlog channel (a serve loop parked at the
+   hand-over is released by done: accept() selects on it since fix 5b5eb9a) *)
+Theorem c04_listener_close_returns : forall n b cs, let s := lrun (linit n b) cs in
   (exists pc, lcloser s = Some pc /\ pc <> LRet) ->
-  (exists c, lowned c = true /\ lstep s c <> None) \/ backlog_owed s.
+  exists c, lowned c = true /\ lstep s c <> None.
 Proof. exact listener_no_stuck. Qed.
-Print Assumptions c04_listener_close_returns_partial.
+Print Assumptions c04_listener_close_returns.
 
 (* the code as first found (variant [legacy]): witness schedules *)
 Theorem c04_no_panic_legacy_refuted : panic (run legacy panic_init panic_sched) = true.
